@@ -332,7 +332,7 @@ def judge(case, uni, info, body, raised):
     code, string, detail = got
     if code != want[0]:
         viol('code', 'fault code %r arrived as %r' % (want[0], code))
-    if (string or '').strip() != (want[1] or '').strip():
+    if (string or '') != (want[1] or ''):
         viol('string', 'fault string %r arrived as %r' % (want[1], string))
     if out_prot == 'httprpc':
         # the text/plain fault form of HttpRpc ("code\n\nstring") has no place
@@ -376,7 +376,7 @@ def judge(case, uni, info, body, raised):
             if ccode != want[0]:
                 viol('client-code', 'client ctx.in_error.faultcode %r, raised '
                                         '%r' % (ce.faultcode, want[0]))
-            if (ce.faultstring or '').strip() != (want[1] or '').strip():
+            if (ce.faultstring or '') != (want[1] or ''):
                 viol('client-string', 'client ctx.in_error.faultstring %r, '
                                      'raised %r' % (ce.faultstring, want[1]))
             cdet = ce.detail
